@@ -64,6 +64,7 @@ type callRec struct {
 	endT     time.Time
 	updSeq   int // set: seq at which store.Update had certainly been executed (first yield point after it)
 	updated  bool // set: took the overwrite path (store.Update succeeded)
+	iterSeen []uint64
 	ok       bool
 	found    bool
 	got      uint64
@@ -258,12 +259,20 @@ type cacheCfg struct {
 	nKeys                              int
 }
 
+// keyIDs: the primary hashes of the keys 1..8; 24, 49 and 74 are ≡ 24 (mod 25), the last of the
+// 25 metric stripes.
+var keyIDs = []uint64{0, 1, 24, 2, 49, 3, 74, 4, 5}
+
 func keyHash(mode string, k uint64) (uint64, uint64) {
 	switch mode {
 	case "collide":
 		return k % 3, 100 + k // several keys per primary hash, distinct non-zero conflicts
 	default:
-		return k, 1000 + k
+		id := k
+		if int(k) < len(keyIDs) {
+			id = keyIDs[k]
+		}
+		return id, 1000 + id
 	}
 }
 
@@ -390,8 +399,8 @@ func cacheCaseBody(r *Run, rng *rand.Rand, cfg cacheCfg, nClients int, sample bo
 		}
 		return 0
 	}
-	emit("cfg bufcap=%d maxcost=%d metrics=%d ignoreinternal=%d costfn=%d su=%d now=%d", cfg.bufCap, cfg.maxCost,
-		b2i(cfg.metrics), b2i(cfg.ignoreInternal), b2i(cfg.costFn), b2i(cfg.su), time.Now().UnixNano())
+	emit("cfg bufcap=%d maxcost=%d metrics=%d ignoreinternal=%d costfn=%d su=%d bufferitems=%d now=%d", cfg.bufCap, cfg.maxCost,
+		b2i(cfg.metrics), b2i(cfg.ignoreInternal), b2i(cfg.costFn), b2i(cfg.su), cfg.bufferItems, time.Now().UnixNano())
 
 	// ---- clients and their calls
 	var calls []*callRec
@@ -511,6 +520,7 @@ func cacheCaseBody(r *Run, rng *rand.Rand, cfg cacheCfg, nClients int, sample bo
 				var seen []string
 				cnt := 0
 				cache.IterValues(func(v uint64) bool {
+					rec.iterSeen = append(rec.iterSeen, v)
 					seen = append(seen, fmt.Sprint(v))
 					cnt++
 					return rec.cost != 0 && int64(cnt) == rec.cost
@@ -858,6 +868,28 @@ func oracleFinal(r *Run, s *sched, cfg cacheCfg, cache *ristretto.Cache[uint64, 
 				if setEndBefore(w, c) && c.startT.After(w.endT.Add(w.ttl)) {
 					r.Fail("C07", fmt.Sprintf("Get(%d) served value %d after its TTL (%v) had elapsed", c.key, c.got, w.ttl), in)
 				}
+			}
+		case "iter":
+			seenOnce := map[uint64]bool{}
+			for _, v := range c.iterSeen {
+				if seenOnce[v] {
+					r.Fail("C13", fmt.Sprintf("IterValues visited value %d twice", v), in)
+				}
+				seenOnce[v] = true
+				w := valCall[v]
+				if w == nil {
+					r.Fail("C01", fmt.Sprintf("IterValues yielded %d which nobody stored", v), in)
+					continue
+				}
+				if w.ttl > 0 && setEndBefore(w, c) && c.startT.After(w.endT.Add(w.ttl)) {
+					r.Fail("C07", fmt.Sprintf("IterValues yielded value %d (key %d) after its TTL (%v) had elapsed", v, w.key, w.ttl), in)
+				}
+				if es, ok := s.exitSeq[v]; ok && es < c.startSeq {
+					r.Fail("C02", fmt.Sprintf("IterValues yielded value %d after it had been passed to OnExit", v), in)
+				}
+			}
+			if c.cost != 0 && int64(len(c.iterSeen)) > c.cost {
+				r.Fail("C13", fmt.Sprintf("IterValues went on after the callback asked to stop (%d values, stop at %d)", len(c.iterSeen), c.cost), in)
 			}
 		case "getttl":
 			if c.found && c.dur > 3600*time.Second {
